@@ -310,8 +310,18 @@ func (e *bvEnv) inlineCall(n *ast.CallExpr) (BV, bool, error) {
 		return BV{}, false, nil
 	}
 	fd := p.FuncObj[fn]
-	if fd == nil || fd.Body == nil || fd.Recv != nil || len(fd.Body.List) == 0 {
+	if fd == nil || fd.Body == nil || len(fd.Body.List) == 0 {
 		return BV{}, false, nil
+	}
+	if fd.Recv != nil {
+		// an accessor method of the object itself: its receiver is the same bytes
+		se, ok := n.Fun.(*ast.SelectorExpr)
+		if !ok || !e.isObj(se.X) {
+			return BV{}, false, nil
+		}
+		if ro := p.recvObj(fd); ro != nil && assignedIn(p.Info, fd.Body, ro) {
+			return BV{}, false, nil
+		}
 	}
 	params := paramObjs(p.Info, fd)
 	if len(params) != len(n.Args) {
